@@ -204,6 +204,55 @@ func envInt(name string, def int64) int64 {
 	return def
 }
 
+// ---- hang watchdog ----
+//
+// An operation of the code under test that never returns (a self-deadlock, an
+// endless loop) must become a violation, not a check that hangs or dies with
+// "all goroutines are asleep". Explorers register the case they are about to
+// execute; a watchdog goroutine reports a case that stays in flight too long.
+
+// HangLimit is how long one operation may take (they take microseconds).
+var HangLimit = 30 * time.Second
+
+type flight struct {
+	since time.Time
+	desc  func() Case
+}
+
+var (
+	flights  sync.Map // token -> *flight
+	flightID int64
+	onHang   func(*Case)
+	hangOnce sync.Once
+)
+
+// InFlight registers an operation that is about to run; call the returned
+// function when it has returned.
+func InFlight(desc func() Case) func() {
+	id := atomic.AddInt64(&flightID, 1)
+	flights.Store(id, &flight{time.Now(), desc})
+	return func() { flights.Delete(id) }
+}
+
+func startWatchdog() {
+	go func() {
+		for {
+			time.Sleep(time.Second)
+			flights.Range(func(k, v any) bool {
+				f := v.(*flight)
+				if time.Since(f.since) > HangLimit && onHang != nil {
+					hangOnce.Do(func() {
+						c := f.desc()
+						c.Msg = fmt.Sprintf("hang: the operation did not return within %v: %s", HangLimit, c.Msg)
+						onHang(&c)
+					})
+				}
+				return true
+			})
+		}
+	}()
+}
+
 // HooksEnabled is set by the hook glue of each check (build tag verif).
 var HooksEnabled = false
 
@@ -300,6 +349,54 @@ func Main(id string, hs ...Harness) {
 	}
 	r.Deadline = r.Start.Add(b)
 
+	finish := func(hang *Case) {
+		// Confirm violations by independent replay; the first few five times.
+		// (A hang cannot be replayed in this process: it is reported as found.)
+		var confirmed []Case
+		if hang != nil {
+			r.mu.Lock()
+			confirmed = append([]Case{*hang}, r.violations...)
+			r.mu.Unlock()
+			r.NotExhaustive("an operation of the code under test did not return (hang); the exploration was abandoned")
+		} else {
+			confirmed = r.confirm()
+		}
+		if *violOut != "" {
+			if err := WriteCases(*violOut, confirmed); err != nil {
+				fmt.Fprintln(os.Stderr, "viol-out:", err)
+				os.Exit(2)
+			}
+		}
+		ev := *evidence
+		if ev == "" {
+			ev = filepath.Join("/verif/evidence", id+".json")
+		}
+		if n := r.NumViolations(); n > MaxStoredViolations {
+			fmt.Printf("WARNING: %d violating cases were found; only the first %d are kept and examined\n", n, MaxStoredViolations)
+			r.extra["violations_overflow"] = n - MaxStoredViolations
+		}
+		if len(r.unrepro) > 0 {
+			fmt.Printf("WARNING: %d violation(s) found by the explorer did not reproduce on independent replay and are NOT reported; this points at the harness (see 'unreproduced' in the evidence). First: %s: %s\n", len(r.unrepro), r.unrepro[0].Harness, r.unrepro[0].Msg)
+		}
+		r.writeEvidence(ev, len(confirmed))
+		if len(confirmed) == 0 || *noVerdict {
+			os.Exit(0)
+		}
+		os.MkdirAll(*replayDir, 0o755)
+		for i, c := range confirmed {
+			if i >= 5 {
+				break
+			}
+			p := filepath.Join(*replayDir, fmt.Sprintf("%s-%s%d.json", id, *tag, i))
+			data, _ := json.MarshalIndent(c, "", " ")
+			os.WriteFile(p, data, 0o644)
+			fmt.Printf("violation: %s step %d: %s\n", c.Harness, c.Step, c.Msg)
+			fmt.Printf("VIOLATION property=%s replay=%s\n", id, p)
+		}
+		os.Exit(1)
+	}
+	onHang = finish
+	startWatchdog()
 	for _, h := range hs {
 		if *only != "" && h.Name != *only {
 			continue
@@ -322,42 +419,7 @@ func Main(id string, hs ...Harness) {
 			id, h.Name, st.States, st.Transitions, st.Evaluations, st.Nontrivial, st.Exhaustive, r.NumViolations(), st.WallS)
 	}
 
-	// Confirm violations by independent replay; the first few five times.
-	confirmed := r.confirm()
-
-	if *violOut != "" {
-		if err := WriteCases(*violOut, confirmed); err != nil {
-			fmt.Fprintln(os.Stderr, "viol-out:", err)
-			os.Exit(2)
-		}
-	}
-	ev := *evidence
-	if ev == "" {
-		ev = filepath.Join("/verif/evidence", id+".json")
-	}
-	if n := r.NumViolations(); n > MaxStoredViolations {
-		fmt.Printf("WARNING: %d violating cases were found; only the first %d are kept and examined\n", n, MaxStoredViolations)
-		r.extra["violations_overflow"] = n - MaxStoredViolations
-	}
-	if len(r.unrepro) > 0 {
-		fmt.Printf("WARNING: %d violation(s) found by the explorer did not reproduce on independent replay and are NOT reported; this points at the harness (see 'unreproduced' in the evidence). First: %s: %s\n", len(r.unrepro), r.unrepro[0].Harness, r.unrepro[0].Msg)
-	}
-	r.writeEvidence(ev, len(confirmed))
-	if len(confirmed) == 0 || *noVerdict {
-		os.Exit(0)
-	}
-	os.MkdirAll(*replayDir, 0o755)
-	for i, c := range confirmed {
-		if i >= 5 {
-			break
-		}
-		p := filepath.Join(*replayDir, fmt.Sprintf("%s-%s%d.json", id, *tag, i))
-		data, _ := json.MarshalIndent(c, "", " ")
-		os.WriteFile(p, data, 0o644)
-		fmt.Printf("violation: %s step %d: %s\n", c.Harness, c.Step, c.Msg)
-		fmt.Printf("VIOLATION property=%s replay=%s\n", id, p)
-	}
-	os.Exit(1)
+	finish(nil)
 }
 
 func isFlagSet(name string) bool {
@@ -371,14 +433,26 @@ func isFlagSet(name string) bool {
 }
 
 // SafeReplay runs a harness replay, turning a panic of the harness itself
-// into a failure at step -1.
-func SafeReplay(h Harness, c Case) (f *Failure) {
-	defer func() {
-		if p := recover(); p != nil {
-			f = Failf(-1, "panic during replay: %v", p)
-		}
+// into a failure at step -1 and a replay that does not return within
+// HangLimit into a failure ("hang").
+func SafeReplay(h Harness, c Case) *Failure {
+	done := make(chan *Failure, 1)
+	go func() {
+		defer func() {
+			if p := recover(); p != nil {
+				done <- Failf(-1, "panic during replay: %v", p)
+			}
+		}()
+		done <- h.Replay(c)
 	}()
-	return h.Replay(c)
+	t := time.NewTimer(HangLimit)
+	defer t.Stop()
+	select {
+	case f := <-done:
+		return f
+	case <-t.C:
+		return Failf(c.Step, "hang: the replay did not return within %v", HangLimit)
+	}
 }
 
 // confirm replays recorded violations without the explorer. A violation that
